@@ -5,10 +5,22 @@ See Also:
   - [eolib.protocol._generated][]
 """
 
+from types import ModuleType as _ModuleType
+
 from .serialization_error import *
+from .protocol_enum_meta import *
 
 from .map import *
 from .net import *
 from .pub import *
 
 from ._generated import *
+
+# Export the protocol classes only: without this, `from .protocol import *` in the top-level
+# package would also copy the sub-module attributes bound here (e.g. `packet`, which is
+# `eolib.protocol.net.packet`) over the top-level sub-packages of the same name.
+__all__ = [
+    _name
+    for _name, _value in list(globals().items())
+    if not _name.startswith('_') and not isinstance(_value, _ModuleType)
+]
